@@ -164,6 +164,14 @@ def run_fragment(body: Sequence[ast.stmt], names: Dict[str, Any], attrs: Optiona
         elif isinstance(t, (ast.Tuple, ast.List)) and isinstance(v, list) and len(v) == len(t.elts) and not any(isinstance(e, ast.Starred) for e in t.elts):
             for e, x in zip(t.elts, v):
                 bind(e, x)
+        elif isinstance(t, (ast.Tuple, ast.List)) and isinstance(v, list) and sum(isinstance(e, ast.Starred) for e in t.elts) == 1 and len(v) >= len(t.elts) - 1:
+            k_ = next(i for i, e in enumerate(t.elts) if isinstance(e, ast.Starred))
+            tail = len(t.elts) - k_ - 1
+            for e, x in zip(t.elts[:k_], v[:k_]):
+                bind(e, x)
+            bind(t.elts[k_].value, PySeq(v[k_ : len(v) - tail]))
+            for e, x in zip(t.elts[k_ + 1 :], v[len(v) - tail :] if tail else []):
+                bind(e, x)
         elif isinstance(t, ast.Subscript):
             store_sub(t, v)
         elif isinstance(t, ast.Attribute):
@@ -211,6 +219,13 @@ def run_fragment(body: Sequence[ast.stmt], names: Dict[str, Any], attrs: Optiona
                     env[c.func.value.id] = cur_
                 continue
             if isinstance(st, ast.Pass):
+                continue
+            if isinstance(st, ast.FunctionDef):
+                env[st.name] = st  # a local function: called (or handed on) by name
+                continue
+            if isinstance(st, ast.Assert):
+                if not truth(fold(st.test)):
+                    raise FragRaise()
                 continue
             if isinstance(st, ast.Assign):
                 try:
